@@ -153,7 +153,9 @@ fn pools(ctx: &Ctx) -> usize {
   let mut sink = ctx.sink("Trace_C10", "pool");
   let mut hsink = ctx.sink("Trace_C10", "poolce");
   let mut rng = ctx.rng(7500);
-  let mut starts: Vec<i64> = vec![0, 5, 95, 995, 1570, 2015, 3350, 9960, 9985];
+  // fixed windows: the range ends, the two reform periods (years 8-25 and 236-240: irregular months such as the 28-day
+  // 236-12 live there), decade borders, the calendar switch
+  let mut starts: Vec<i64> = vec![0, 5, 16, 95, 230, 995, 1570, 2015, 3350, 9960, 9985];
   let extra = if ctx.quick() { 6 } else { 120 };
   for _ in 0..extra {
     starts.push(rng.range(1, 9970));
@@ -168,6 +170,14 @@ fn pools(ctx: &Ctx) -> usize {
           let _ = rep;
           reqs.push((y, m));
         }
+      }
+    }
+    // ... and month numbers far outside -12..13 (refused, whatever the memo already holds: a key computed by arithmetic
+    // on (year, month) must not let such a request alias a valid label of a neighbouring year)
+    for y in y0..(y0 + span) {
+      for _ in 0..6 {
+        let m = rng.range(14, 300) * if rng.range(0, 1) == 0 { 1 } else { -1 };
+        reqs.push((y, m));
       }
     }
     // Fisher-Yates with the seeded generator
